@@ -261,6 +261,10 @@ func Input(l *InputSharedVars, g *GlobalVarsMain, hPath *HFilePath, driConfig *C
 									g.W[LTindex], g.WMIN[LTindex] = PTF4(g.CGEHALT[lindex], l.TON[lindex], l.SSAND[lindex])
 								}
 								g.PORGES[LTindex] = g.GPV[lindex] / 100
+								if g.W[LTindex] > g.PORGES[LTindex] {
+									// the field capacity of a transfer function is limited by the pore volume of the soil file (as the table values are)
+									g.W[LTindex] = g.PORGES[LTindex]
+								}
 								g.WNOR[LTindex] = g.W[LTindex]
 
 								if L == 1 {
